@@ -88,6 +88,15 @@ CLAIMED.update({
             "Validated on row counts 0..4 x lengths 0..4 with the odd row at every position, length-coincidence cases, every macro arm.",
             TB, "DESIGN §7 C19"),
 })
+CLAIMED.update({
+    'C01': ("Rocq invariant by induction over operation histories of the executable pool machine + differential correspondence on random histories",
+            "PARTIAL w.r.t. drop accounting. Proved: every operation of the ~90-operation history machine (constructors, conversions, order/shape changes, swaps, overwrite, maps, elementwise/scalar/product "
+            "families, all iterators, parallel helpers) keeps every matrix coherent (major*minor = stored elements within usize/isize bounds), hence every reachable state of any history is coherent; "
+            "in a coherent matrix every in-bounds (row,col) resolves to its own distinct live element. The machine is run operation by operation against the crate on random histories over the whole public "
+            "alphabet with four element types, with an independent coherence probe and a drop/clone ledger inside the harness.",
+            TB + " Drop/clone accounting is observed (ledger: live elements = sum of sizes after every operation, no double drop, nothing live at the end), not proved; "
+            "stated for element types that occupy memory; macro arms excluded from the theorem (covered by correspondence).", "DESIGN §7 C01"),
+})
 NOT_APPLICABLE = {}
-for _p in ['C01', 'C02', 'C03', 'C20']:
+for _p in ['C02', 'C03', 'C20']:
     NOT_APPLICABLE[_p] = "not claimed yet: the check for this property is still being built in this round (the technique applies; see DESIGN.md §7)"
